@@ -51,6 +51,7 @@ def int_decorator(size, id_, min_, max_):
         cls._check = check
 
         cls._DEFAULT = 0
+        cls._MAX = max_
 
         return cls
 
